@@ -300,6 +300,28 @@ def big_run(rng, fmt, kind, *, dims=1, bins=4, channels=2, iters=2, calls=(6,), 
     s = spec_run(kind, fmt, dims=dims, channels=channels if kind == 'mc' else 1, seed=rng.getrandbits(32), chk=chk, f=f, dists=dl, fills=fills, tables=[], mp=mp, trace=trace, ops=ops)
     return s, {'kind': kind, 'dims': dims, 'channels': channels if kind == 'mc' else 1, 'calls': cl_calls}
 
+def gen_wide_return(c, rng, tier):
+    """a user function whose return type is wider than the numeric type (float integration of a function returning long double): the
+    library converts the value to its numeric type first and works with that - the value table of the model holds the rounded values"""
+    wide = FMTS['l']
+    for t in ['f', 'd']:
+        fmt = FMTS[t]
+        for _ in range(scale(tier, 4, 30)):
+            dims = rng.choice([1, 2]); bins = rng.choice([2, 3, 5])
+            xs = []
+            for d in range(dims): xs += rand_grid(rng, fmt, bins, rng.choice(['random', 'peaked']))
+            vals = []
+            for _ in range(rng.choice([3, 7])):
+                r = rng.random()
+                if r < 0.15: vals.append(Fraction(0))
+                elif r < 0.25: vals.append(Fraction(rng.randint(1, 9), 4))
+                else: vals.append(wide.round(Fraction(rng.getrandbits(62) | 1, 2 ** 61) * Fraction(2) ** rng.randint(-8, 8) * rng.choice([1, -1])))
+            calls = [rng.choice([6, 12]) for _ in range(rng.choice([2, 3]))]
+            s = spec_run('vegas', fmt, dims=dims, seed=rng.getrandbits(32), chk=['pdf', bins, dims, toks(fmt, xs), fmt.rtok(Fraction(3, 2))],
+                         f=['tab', toks(fmt, [fmt.round(v) for v in vals])], ops=[['run', calls], ['dump']])
+            s.insert(-1, ['fwide', toks(wide, vals)])
+            c.add(t, 'run', s, classes=['kind_vegas', 'function_returns_wider_type', 'chk_user_grid'], nontrivial=True, info={'kind': 'vegas', 'dims': dims, 'channels': 1, 'calls': calls})
+
 def gen_sizes(c, rng, tier, t, families, ops_fn=None, per=1):
     """structure sizes far above the ordinary cases: around powers of two (narrow index types, small buffers) and odd (halving schemes)"""
     fmt = FMTS[t]
@@ -678,6 +700,7 @@ def gen_C02(c, rng, tier):
                 s, cl2 = mpi_variant(rng, s, info)
                 c.add(t, 'run', s, classes=cl + cl2, nontrivial=any(x >= 2 for x in info['calls']), info=info)
     for t in TYPES: gen_sizes(c, rng, tier, t, ['dims', 'dists', 'iterations'])
+    gen_wide_return(c, rng, tier)
 
 @prop('C06', 'paired runs (poisoned / zeroed twin) over 2-4 adaptive iterations; NaN, +inf, -inf from the integrand, from the fill value and from the weight '
       '(infinite jacobian, zero density sum); all three integrators and types; non-trivial = at least one non-finite and one finite evaluation',
@@ -700,6 +723,7 @@ def gen_C06(c, rng, tier):
                                        value_classes=['small_int', 'nan', 'inf', 'ninf', 'zero', 'frac'], special_map=(kind == 'mc'))
                 s, cl2 = mpi_variant(rng, s, info, worlds=(2, 3, 5))
                 c.add(t, 'run', s, classes=cl + cl2 + ['poisoned'], info=info)
+    gen_wide_return(c, rng, tier)
 
 @prop('C10', 'runs of the three integrators with every value pattern, grid and weight vector: the number of raw draws taken from the scripted 64-bit engine '
       'and the stored generator positions are compared with the model; the predictor random_number_usage is compared with the measured draws of all nine '
